@@ -3,6 +3,7 @@ contexts yielded by accumulators) to the real lena objects.
 
 Pure values of the specs are JSON: {"d": [ints], "c": context}; the empty context arrives as [].
 """
+import collections
 import copy
 import json
 import random
@@ -13,15 +14,46 @@ NONE = -1000
 
 
 # =============================================================================== model A: isolation
-def flow_value(j):
-    """Isolation!X(j): every value has its own data list and its own context."""
+class Ev(object):
+    """A user object with attributes (an "event"): mutable, and hashable by default."""
+
+    def __init__(self, items, time=0.5):
+        self.items = items
+        self.time = time
+
+
+EvPair = collections.namedtuple("EvPair", "ev aux")
+
+
+def flow_value(j, shape="pair"):
+    """Isolation!XS(j, shape): every value has its own data object and its own context (if any)."""
     if j % 3 == 1:
         c = {"a": 1, "n": {"b": 1}}
     elif j % 3 == 2:
         c = {}
     else:
         c = {"a": 2}
-    return ([j], c)
+    if shape == "pair":
+        return ([j], c)
+    if shape == "objpair":
+        return (Ev([j]), c)
+    if shape == "obj":
+        return Ev([j])
+    if shape == "tuple":
+        return (Ev([j]), Ev([0]))
+    if shape == "ntuple":
+        return EvPair(Ev([j]), Ev([0]))
+    raise ValueError(shape)
+
+
+def holder(value):
+    """the mutable part of the data of a value (the data cell of Heap.tla): a list"""
+    data = value[0] if _has_context(value) else value
+    if isinstance(data, Ev):
+        return data.items
+    if isinstance(data, tuple):
+        return data[0].items
+    return data
 
 
 class _Structural(object):
@@ -73,7 +105,7 @@ class AppEl(_Structural):
         self.x = x
 
     def __call__(self, value):
-        value[0].append(self.x)
+        holder(value).append(self.x)         # an in-place change of the data: a list, an attribute of an object
         return value
 
 
@@ -169,6 +201,11 @@ def build_mut(mu, shared=None):
     if t == "var":
         x = mu["x"]
         return lena.variables.Variable(mu["s"], lambda d: d + [x])
+    if t == "vart":
+        x = mu["x"]        # a typed Variable: var_context has a sub-dictionary
+        return lena.variables.Variable(mu["s"], lambda d: d + [x], type="coordinate", unit="cm")
+    if t == "setv":
+        return lena.context.UpdateContext("variable.coordinate." + mu["key"], mu["s"])
     if t == "cnt":
         return lena.flow.Count(mu["key"])
     raise ValueError(mu)
@@ -197,23 +234,23 @@ def build_branch(b, br, shared=None):
 
 
 def pure(v):
-    """real (data, context) -> pure value of the spec"""
-    data, ctx = v
-    return {"d": [data] if isinstance(data, int) else list(data), "c": copy.deepcopy(ctx)}
+    """real value (pair or bare data) -> pure value of the spec"""
+    data, ctx = (v[0], v[1]) if _has_context(v) else (v, {})
+    return {"d": [data] if isinstance(data, int) else list(holder(v)), "c": copy.deepcopy(ctx)}
 
 
 def norm_pure(x):
     return {"d": x["d"], "c": {} if x["c"] == [] else x["c"]}
 
 
-def run_scenario(brs, n, bs, drv, rq, copy_buf=True, share=False):
+def run_scenario(brs, n, bs, drv, rq, copy_buf=True, share=False, shape="pair", nested=False):
     """Execute one scenario on the real Split / Zip.  Returns per-branch lists (1-based dict) of
     (snapshot when yielded, the yielded object) plus the source values (as the caller holds them afterwards)."""
     import lena.core
     import lena.flow
     shared = {} if share else None
     branches = [build_branch(b + 1, br, shared) for b, br in enumerate(brs)]
-    values = [flow_value(j + 1) for j in range(n)]
+    values = [flow_value(j + 1, shape) for j in range(n)]
     outs = []          # (b, snapshot at yield, object)
 
     def take(item):
@@ -223,6 +260,12 @@ def run_scenario(brs, n, bs, drv, rq, copy_buf=True, share=False):
 
     if drv == "run":
         s = lena.core.Split(branches, bufsize=None if bs == NONE else bs, copy_buf=copy_buf)
+        for item in s.run(iter(values)):
+            take(item)
+    elif drv == "fill" and nested:
+        # the fill-driven Split as the only branch of an outer Split.run (which hands its buffer through)
+        inner = lena.core.Split(branches, copy_buf=copy_buf)
+        s = lena.core.Split([inner], bufsize=2)
         for item in s.run(iter(values)):
             take(item)
     elif drv == "fill":
@@ -275,9 +318,16 @@ def brs_key(brs):
 
 
 # ---- random configurations beyond the exhaustive bounds
-def rand_mut(rnd, end):
-    t = rnd.choice(["inc", "inc", "app", "lapp", "set", "setn", "mkfn", "var"] + (["cnt"] if end == "seq" else []))
+def rand_mut(rnd, end, shape="pair"):
     M = lambda t, nk, key, x, s, ia: {"t": t, "nk": nk, "key": key, "x": x, "s": s, "ia": ia}
+    if shape != "pair":
+        return M("app", "", "", rnd.randint(10, 19), "", False)
+    t = rnd.choice(["inc", "inc", "app", "lapp", "set", "setn", "mkfn", "var", "vart", "vart", "setv", "setv"]
+                   + (["cnt"] if end == "seq" else []))
+    if t == "vart":
+        return M("vart", "variable", "name", rnd.randint(40, 49), rnd.choice(["x", "y"]), False)
+    if t == "setv":
+        return M("setv", "variable", rnd.choice(["unit", "range"]), 0, rnd.choice(["mm", "m"]), False)
     if t == "inc":
         return M("inc", "", rnd.choice(["hits", "a", "k"]), 0, "", False)
     if t == "app":
@@ -295,17 +345,24 @@ def rand_mut(rnd, end):
     return M("cnt", "", rnd.choice(["cnt", "cnt2"]), 0, "", False)
 
 
-def rand_branch(rnd, ends):
+def rand_branch(rnd, ends, shape="pair"):
     end = rnd.choice(ends)
     muts = []
     if end != "src":
         seen = set()
         for _ in range(rnd.randint(0, 3)):
-            mu = rand_mut(rnd, end)
-            if mu["t"] in ("var", "cnt") and mu["t"] in seen:
+            mu = rand_mut(rnd, end, shape)
+            cls = "var" if mu["t"] == "vart" else mu["t"]
+            if cls in ("var", "cnt") and cls in seen:
                 continue          # one Variable / one Count per branch (composition belongs to C14)
-            seen.add(mu["t"])
+            seen.add(cls)
             muts.append(mu)
+        # a write below context.variable comes after the Variable of the branch (what a Variable does with an
+        # existing context.variable is composition: C14)
+        first = next((i for i, m in enumerate(muts) if m["t"] in ("var", "vart")), None)
+        if first is not None:
+            early = [m for m in muts[:first] if m["t"] == "setv"]
+            muts = [m for m in muts[:first] if m["t"] != "setv"] + [muts[first]] + early + muts[first + 1:]
     stop = NONE
     if end in ("store", "fr") and rnd.random() < 0.3:
         stop = rnd.randint(0, 4)
@@ -329,25 +386,33 @@ def rand_scenario(rnd):
 
 
 def _rand_scenario(rnd):
+    shape = rnd.choice(["pair", "pair", "pair", "objpair", "obj", "tuple", "ntuple"])
+    sc = _rand_scenario_of(rnd, shape)
+    sc["shape"] = shape
+    return sc
+
+
+def _rand_scenario_of(rnd, shape):
     drv = rnd.choice(["run", "run", "run", "fill", "fill", "fillreq", "zip"])
     nb = rnd.randint(1, 5)
+    rb = lambda r, ends: rand_branch(r, ends, shape)       # noqa
     if drv == "run":
-        brs = [rand_branch(rnd, ["seq", "seq", "store", "count", "fr", "src"]) for _ in range(nb)]
+        brs = [rb(rnd, ["seq", "seq", "store", "count", "fr", "src"]) for _ in range(nb)]
         bs = rnd.choice([NONE, 1, 2, 3, 5])
         rq = 0
     elif drv == "fill":
-        brs = [rand_branch(rnd, ["store", "count"]) for _ in range(nb)]
+        brs = [rb(rnd, ["store", "count"]) for _ in range(nb)]
         for br in brs:
             br["stop"] = NONE
         bs, rq = 1, 0
     elif drv == "fillreq":
-        brs = [rand_branch(rnd, ["fr"]) for _ in range(nb)]
+        brs = [rb(rnd, ["fr"]) for _ in range(nb)]
         for br in brs:
             br["stop"] = NONE
         bs, rq = 1, rnd.randint(0, 1)
     else:
         end = rnd.choice(["store", "count", "fr"])
-        brs = [rand_branch(rnd, [end]) for _ in range(nb)]
+        brs = [rb(rnd, [end]) for _ in range(nb)]
         for br in brs:
             br["stop"] = NONE
         bs, rq = 1, (rnd.randint(0, 1) if end == "fr" else 0)
